@@ -792,8 +792,10 @@ class ExcelCompiler:
                     address, formula=REF_FORMAT.format(excel_data.address),
                     excel=self.excel)
                 self.cell_map[str(address)] = alias
-                # the reference depends on the range it refers to
+                # the reference depends on the range it refers to, and like a
+                # range it is evaluated as soon as it is built
                 add_node_to_graph(alias)
+                self.range_todos.append(str(address))
 
             if str(excel_data.address) in self.cell_map:
                 # the range referred to is already built, keep its node
